@@ -207,7 +207,12 @@ func appendEvents(path string, events []Event) error {
 	if err != nil {
 		return err
 	}
-	if unterminated {
+	// A batch of several events must reach the log as a whole. A plain append
+	// cannot promise that: on a full disk (or at a file-size limit) write(2)
+	// stores a prefix and the rest fails, or the process dies in between, and a
+	// complete first event (a claim without its state) would stay behind. Such
+	// batches therefore go through the temp-file + rename path as well.
+	if unterminated || len(events) > 1 {
 		existing, err := readEvents(path)
 		if err != nil {
 			return err
@@ -219,9 +224,8 @@ func appendEvents(path string, events []Event) error {
 		return err
 	}
 	defer file.Close()
-	// One write for the whole batch: a command's events reach the log
-	// together, so a process killed between system calls cannot leave a
-	// multi-event command (e.g. claim + state) half recorded.
+	// At most one event from here on: a short or interrupted write leaves a
+	// torn final line, which readers drop and the next writer repairs.
 	var batch []byte
 	for _, event := range events {
 		data, err := json.Marshal(event)
